@@ -34,7 +34,7 @@ def main():
     pkg = args[args.index("--pkg") + 1] if "--pkg" in args else None
     tier = args[args.index("--tier") + 1] if "--tier" in args else "quick"
     src = os.path.join(ROOT, "seeded", f"{pid}-{which}")
-    for cand in (f"/tmp/mut-c{pid[1:]}-out/{which}", f"/tmp/mut2-c{pid[1:]}-out/{which}", f"/tmp/mut3-c{pid[1:]}-out/{which}", f"/tmp/mut4-c{pid[1:]}-out/{which}", f"/tmp/mut5-c{pid[1:]}-out/{which}"):
+    for cand in (f"/tmp/mut-c{pid[1:]}-out/{which}", f"/tmp/mut2-c{pid[1:]}-out/{which}", f"/tmp/mut3-c{pid[1:]}-out/{which}", f"/tmp/mut4-c{pid[1:]}-out/{which}", f"/tmp/mut5-c{pid[1:]}-out/{which}", f"/tmp/mut6-c{pid[1:]}-out/{which}"):
         if os.path.exists(os.path.join(cand, "patch.diff")):
             src = cand
             break
